@@ -93,6 +93,8 @@ type interpreter struct {
 
 	funcsSeen map[*ssa.Function]bool
 	sideState map[*value]interface{} // intrinsic object state keyed by receiver address (sync.Map etc.)
+	goDepth   int                    // > 0 while a sequentialised goroutine body runs
+	gomaxprocs int                   // what runtime.GOMAXPROCS reports (0: default 4); set by vndGOMAXPROCS
 
 	runtimeErrorType types.Type
 	stubs            map[string]*ssa.Function // function name -> replacement
@@ -391,7 +393,11 @@ func (i *interpreter) visitInstr(fr *frame, instr ssa.Instruction) continuation 
 	case *ssa.Go:
 		// Sequentialised: the goroutine runs to completion at the spawn point.
 		fn, args := i.prepareCall(fr, &instr.Call)
-		i.call(fr, instr.Pos(), fn, args)
+		i.goDepth++
+		func() {
+			defer func() { i.goDepth-- }()
+			i.call(fr, instr.Pos(), fn, args)
+		}()
 
 	case *ssa.MakeChan:
 		fr.env[instr] = &schan{cap: int(i.concInt(fr.get(instr.Size), "chan size"))}
@@ -653,6 +659,11 @@ func (i *interpreter) chanSend(ch *schan, v value) {
 		rtPanic("send on closed channel")
 	}
 	if len(ch.q) >= ch.cap {
+		if i.goDepth == 0 {
+			// Every goroutine spawned so far has run to completion, so nobody is
+			// left who could receive: the main goroutine blocks forever.
+			panic(pathAbort{"deadlock", fmt.Sprintf("the main goroutine blocks on a channel send (capacity %d) with no other goroutine left to receive", ch.cap)})
+		}
 		i.unsupported("channel send would block (cap %d); goroutines are sequentialised", ch.cap)
 	}
 	ch.q = append(ch.q, v)
